@@ -10,7 +10,7 @@ use proptest::prelude::*;
 use serde::{Deserialize, Serialize};
 use serde_json::json;
 
-pub const RULE: &str = "enumerated: every whole-second offset in [-1200s,+1200s] (2401 values) and the nanosecond neighbours of both bounds, at a list of server instants (mid-day, 00:00:00, 23:59:59.999999999, month/year/leap-day boundaries, years 1 and 9999 edges), on both carriers; generated: random (server instant, offset in ns) pairs biased to the bounds x renderings (basic/extended, Z, +-hh:mm / +-hhmm zones, 0-12 fraction digits). Every request is reference-signed, so inside the window nothing but the timestamp could cause refusal. Oracle (i128 ns arithmetic): Ok iff -900s <= t-now <= +900s; outside: SignatureDoesNotMatch/403 with zero provider calls; all renderings of one instant get one verdict. Non-trivial: |offset| within 2s of a bound, or a sub-second component, or a non-Z/extended/fractional rendering, or a boundary server instant; distinct by (request text, server instant).";
+pub const RULE: &str = "enumerated: every whole-second offset in [-1200s,+1200s] (2401 values) and the nanosecond neighbours of both bounds, plus offsets of decades to millennia and the neighbourhoods of 2^31 s, 2^32 s and 2^63 ns, at a list of server instants (mid-day, 00:00:00, 23:59:59.999999999, month/year/leap-day boundaries, years 1 and 9999 edges), on both carriers; generated: random (server instant, offset in ns) pairs biased to the bounds x renderings (basic/extended, Z, +-hh:mm / +-hhmm zones, 0-12 fraction digits). Every request is reference-signed, so inside the window nothing but the timestamp could cause refusal. Oracle (i128 ns arithmetic): Ok iff -900s <= t-now <= +900s; outside: SignatureDoesNotMatch/403 with zero provider calls; all renderings of one instant get one verdict. Non-trivial: |offset| within 2s of a bound, or a sub-second component, or a non-Z/extended/fractional rendering, or a boundary server instant; distinct by (request text, server instant).";
 
 #[derive(Clone, Debug, Serialize, Deserialize)]
 pub struct WindowCase {
@@ -29,6 +29,11 @@ pub fn delta_any() -> BoxedStrategy<i128> {
         1 => prop_oneof![Just(W), Just(-W), Just(W + 1), Just(-W - 1), Just(W - 1), Just(-W + 1), Just(0i128)],
         1 => (-1200i128..=1200).prop_map(|s| s * 1_000_000_000),
         1 => prop_oneof![Just(86_400_000_000_000i128), Just(-86_400_000_000_000), Just(3_600_000_000_000), Just(-3_600_000_000_000)],
+        // far apart: years to millennia, and the neighbourhood of what 64-bit second / millisecond / microsecond /
+        // nanosecond counters can hold (2^63 ns is about 292 years, 2^31 s about 68 years, 2^32 s about 136 years)
+        1 => (-9_000i128..=9_000).prop_map(|y| y * 31_556_952_000_000_000),
+        1 => (prop_oneof![Just(1i128 << 63), Just((1i128 << 31) * 1_000_000_000), Just((1i128 << 32) * 1_000_000_000), Just((1i128 << 53) * 1_000), Just(i64::MAX as i128), Just(1i128 << 62)], -2i128..=2, any::<bool>())
+            .prop_map(|(m, d, neg)| if neg { -(m + d) } else { m + d }),
     ]
     .boxed()
 }
@@ -107,6 +112,12 @@ fn sweep_list(tier: Tier) -> Vec<WindowCase> {
             for e in [W, -W] {
                 for d in [-2i128, -1, 0, 1, 2, 999_999_999, -999_999_999, 500_000_000, -500_000_000] {
                     deltas.push(e + d);
+                }
+            }
+            for m in [1i128 << 63, (1i128 << 31) * 1_000_000_000, (1i128 << 32) * 1_000_000_000, 100 * 31_556_952_000_000_000, 300 * 31_556_952_000_000_000, 1000 * 31_556_952_000_000_000] {
+                for d in [-1_000_000_000i128, -1, 0, 1, 1_000_000_000] {
+                    deltas.push(m + d);
+                    deltas.push(-(m + d));
                 }
             }
             for delta in deltas {
